@@ -3,6 +3,7 @@ package props
 import (
 	"fmt"
 	"reflect"
+	"sort"
 	"strings"
 	"testing"
 	"time"
@@ -428,10 +429,15 @@ func TestC17Equality(t *testing.T) {
 
 		aspects := []string{"none", "type-name", "attr-name", "value", "id", "extra-attr", "extra-rel", "attr-kind"}
 		if len(ts.Rels) > 0 {
-			aspects = append(aspects, "rel-name", "rel-value", "rel-inverse")
+			aspects = append(aspects, "rel-name", "rel-value", "rel-inverse", "attr-for-rel")
+		}
+
+		if !aWrapped && !bWrapped {
+			aspects = append(aspects, "fresh-vs-set")
 		}
 
 		aspect := rapid.SampledFrom(aspects).Draw(t, "aspect")
+		freshPair := false
 
 		switch aspect {
 		case "type-name":
@@ -482,6 +488,22 @@ func TestC17Equality(t *testing.T) {
 			ts2.Attrs[i].Type, ts2.Attrs[i].Nullable = pair.k2, false
 			vals[ts.Attrs[i].Name], vals2[ts.Attrs[i].Name] = pair.v1, pair.v2
 			a = build(ts, vals, aWrapped)
+		case "attr-for-rel":
+			// As many fields on both sides, one of them a relationship here
+			// and an attribute there.
+			i := rapid.IntRange(0, len(ts2.Rels)-1).Draw(t, "i")
+			old := ts2.Rels[i].FromName
+			ts2.Rels = append(ts2.Rels[:i:i], ts2.Rels[i+1:]...)
+			delete(vals2, old)
+			name := rapid.SampledFrom([]string{"zzswap", old, "0swap"}).Draw(t, "swapname")
+			ts2.Attrs = append(ts2.Attrs, jsonapi.Attr{Name: name, Type: jsonapi.AttrTypeString})
+			sort.Slice(ts2.Attrs, func(x, y int) bool { return ts2.Attrs[x].Name < ts2.Attrs[y].Name })
+			vals2[name] = "x"
+		case "fresh-vs-set":
+			// Two soft resources made by the same Type value, the first one
+			// never touched, the second one holding a value that is not the
+			// zero value.
+			freshPair = true
 		case "rel-inverse":
 			// a has one end of a two-way relationship of the type with
 			// itself, b the other end (same cardinality, same value): two
@@ -565,13 +587,32 @@ func TestC17Equality(t *testing.T) {
 		}
 
 		b := build(ts2, vals2, bWrapped)
+
+		if freshPair {
+			st := ts
+			st.Struct = false
+			typ := gen.SoftTypeOf(&st)
+			a, b = typ.New(), typ.New()
+			at := ts.Attrs[rapid.IntRange(0, len(ts.Attrs)-1).Draw(t, "fresh-attr")]
+			_, zero := gen.Deref(gen.ZeroValue(jsonapi.Attr{Type: at.Type}))
+			other := differentValue(t, zero)
+
+			if at.Nullable {
+				other = gen.PtrTo(other)
+			}
+
+			b.Set(at.Name, other)
+			vals, vals2 = map[string]any{"id": ""}, map[string]any{"id": "", at.Name: other}
+		}
+
 		desc := fmt.Sprintf("%s %s aspect=%s a.wrapped=%v b.wrapped=%v b=%s %s", ts, gen.ShowVals(vals), aspect, aWrapped, bWrapped, ts2, gen.ShowVals(vals2))
 
 		var eqAA, eqBB, eqAB, eqBA, sAA, sBB, sAB, sBA bool
 
 		if p := oracle.Try(func() {
-			eqAA, eqBB = jsonapi.Equal(a, a), jsonapi.Equal(b, b)
+			// (across first: nothing has looked at either resource yet)
 			eqAB, eqBA = jsonapi.Equal(a, b), jsonapi.Equal(b, a)
+			eqAA, eqBB = jsonapi.Equal(a, a), jsonapi.Equal(b, b)
 			sAA, sBB = jsonapi.EqualStrict(a, a), jsonapi.EqualStrict(b, b)
 			sAB, sBA = jsonapi.EqualStrict(a, b), jsonapi.EqualStrict(b, a)
 		}); p != nil {
